@@ -37,7 +37,7 @@ func runC16(c *core.Ctx) error {
 	r2 := c.NewRule("R16.2", "S1", "unescape applied per '/'-split token and its result is what lookup receives", 3)
 	r3 := c.NewRule("R16.3", "S1", "fragment form is percent-decoded before splitting", 2)
 	r4 := c.NewRule("R16.4", "S1", "member lookup is string equality returning the adjacent value; index lookup is base-10 unsigned", 3)
-	r5 := c.NewRule("R16.5", "S1", "unproven bounds checks of package jsonpointer discharged", 4)
+	r5 := c.NewRule("R16.5", "S1", "unproven bounds checks of package jsonpointer discharged", 2)
 
 	unesc := pkg.Func("unescape")
 	findFn := pkg.Func("find")
@@ -45,12 +45,13 @@ func runC16(c *core.Ctx) error {
 	findKey := pkg.Func("findKey")
 	findIdx := pkg.Func("findIdx")
 	splitFn := pkg.Func("splitFunc")
-	for n, f := range map[string]*ssa.Function{"unescape": unesc, "find": findFn, "Resolve": resolve, "findKey": findKey, "findIdx": findIdx, "splitFunc": splitFn} {
+	// splitFunc is optional: the split on '/' may be written with strings.Cut / Split / IndexByte where the tokens are used
+	for n, f := range map[string]*ssa.Function{"unescape": unesc, "find": findFn, "Resolve": resolve, "findKey": findKey, "findIdx": findIdx} {
 		if f == nil {
 			r1.Undecided("anchor:"+n, "-", "jsonpointer."+n+" not found")
 		}
 	}
-	if unesc == nil || findFn == nil || resolve == nil || findKey == nil || findIdx == nil || splitFn == nil {
+	if unesc == nil || findFn == nil || resolve == nil || findKey == nil || findIdx == nil {
 		return nil
 	}
 
@@ -180,7 +181,7 @@ func runC16(c *core.Ctx) error {
 		fn := call.Parent()
 		key := "unescape-in:" + fn.Name()
 		okTok := false
-		if fn.Parent() != nil && len(fn.Params) >= 1 && call.Common().Args[0] == ssa.Value(fn.Params[0]) {
+		if splitFn != nil && fn.Parent() != nil && len(fn.Params) >= 1 && call.Common().Args[0] == ssa.Value(fn.Params[0]) {
 			// is this closure passed to splitFunc(…, '/', closure)?
 			for _, pc := range core.Calls(fn.Parent()) {
 				if pc.Common().StaticCallee() != splitFn {
@@ -192,8 +193,11 @@ func runC16(c *core.Ctx) error {
 				}
 			}
 		}
+		if !okTok && isSlashToken(call.Common().Args[0], pkgFuncCallSites(prog, pkg), 0) {
+			okTok = true
+		}
 		if okTok {
-			r2.Pass(fmt.Sprintf("unescape at %s is applied to the token handed out by splitFunc(_, '/')", c.Pos(call.Pos())))
+			r2.Pass(fmt.Sprintf("unescape at %s is applied to a token of the '/' split", c.Pos(call.Pos())))
 		} else {
 			r2.Fail(key, c.Pos(call.Pos()), "unescape is applied to something other than a '/'-split token (unescaping the unsplit pointer turns ~1 into a separator)")
 		}
@@ -205,13 +209,57 @@ func runC16(c *core.Ctx) error {
 			}
 			if lc.Common().Args[1] == call.Value() {
 				r2.Pass(cal.Name() + " receives the unescaped token")
+			} else if ph, isPhi := lc.Common().Args[1].(*ssa.Phi); isPhi && phiOnlyOf(ph, call.Value()) {
+				r2.Pass(cal.Name() + " receives the unescaped token")
 			} else {
 				r2.Fail(key+":"+cal.Name(), c.Pos(lc.Pos()), cal.Name()+" does not receive the unescaped token")
 			}
 		}
 	}
+	// lookups outside the functions that call unescape (a helper that evaluates one token): their token argument is a
+	// parameter that every call site in the package feeds with unescape's result
+	{
+		sites := pkgFuncCallSites(prog, pkg)
+		unescFns := map[*ssa.Function]bool{}
+		for _, call := range unescCalls {
+			unescFns[call.Parent()] = true
+		}
+		for _, fn := range core.PkgFuncs(prog.SSA, pkg) {
+			for _, g := range core.AllFuncs(fn) {
+				if unescFns[g] {
+					continue
+				}
+				for _, lc := range core.Calls(g) {
+					cal := lc.Common().StaticCallee()
+					if cal != findKey && cal != findIdx {
+						continue
+					}
+					arg := lc.Common().Args[1]
+					ok := false
+					if prm, isP := arg.(*ssa.Parameter); isP {
+						idx := paramIndex(g, prm)
+						ok = idx >= 0 && len(sites[g]) > 0
+						for _, cs := range sites[g] {
+							a := cs.Common().Args[idx]
+							ac, isCall := a.(*ssa.Call)
+							if !isCall || ac.Common().StaticCallee() != unesc {
+								ok = false
+							}
+						}
+					}
+					if ok {
+						r2.Pass(cal.Name() + " in " + g.Name() + " receives the unescaped token through its caller")
+					} else {
+						r2.Fail("lookup-token:"+g.Name()+":"+cal.Name(), c.Pos(lc.Pos()), cal.Name()+" in "+g.Name()+" does not receive unescape's result (directly or as the parameter every caller feeds with it): ~0 / ~1 in a member name are compared undecoded")
+					}
+				}
+			}
+		}
+	}
 	// the split callback sees exactly the pieces between separators
-	checkSplit(c, r2, splitFn)
+	if splitFn != nil {
+		checkSplit(c, r2, splitFn)
+	}
 
 	// ---- R16.3
 	n3 := 0
@@ -768,4 +816,115 @@ func cutOutOfString(v ssa.Value, d int) string {
 		}
 	}
 	return ""
+}
+
+// pkgFuncCallSites: static call sites of the package's functions inside the package.
+func pkgFuncCallSites(prog *core.Prog, pkg *ssa.Package) map[*ssa.Function][]ssa.CallInstruction {
+	out := map[*ssa.Function][]ssa.CallInstruction{}
+	for _, fn := range core.PkgFuncs(prog.SSA, pkg) {
+		for _, g := range core.AllFuncs(fn) {
+			for _, call := range core.Calls(g) {
+				if cal := call.Common().StaticCallee(); cal != nil {
+					out[cal] = append(out[cal], call)
+				}
+			}
+		}
+	}
+	return out
+}
+
+// isSlashToken: v is one piece of a string split on '/': the part before the separator of strings.Cut(_, "/"), an
+// element of strings.Split(_, "/"), a substring bounded by strings.IndexByte(_, '/') / strings.Index(_, "/"), a phi of
+// such, or a parameter that every call site feeds with one.
+func isSlashToken(v ssa.Value, sites map[*ssa.Function][]ssa.CallInstruction, d int) bool {
+	if d > 4 {
+		return false
+	}
+	isSlash := func(a ssa.Value) bool {
+		if s, ok := core.ConstString(a); ok {
+			return s == "/"
+		}
+		if k, ok := core.ConstInt(a); ok {
+			return k == '/'
+		}
+		return false
+	}
+	switch x := v.(type) {
+	case *ssa.Extract:
+		if call, ok := x.Tuple.(*ssa.Call); ok && core.IsCallTo(call.Common(), "strings", "Cut") && x.Index == 0 {
+			return isSlash(call.Common().Args[1])
+		}
+	case *ssa.UnOp:
+		if x.Op == token.MUL {
+			if ia, ok := x.X.(*ssa.IndexAddr); ok {
+				if call, ok := ia.X.(*ssa.Call); ok && (core.IsCallTo(call.Common(), "strings", "Split") || core.IsCallTo(call.Common(), "strings", "SplitN")) {
+					return isSlash(call.Common().Args[1])
+				}
+			}
+		}
+	case *ssa.Slice:
+		for _, b := range []ssa.Value{x.Low, x.High} {
+			if b == nil {
+				continue
+			}
+			found := false
+			var walk func(y ssa.Value, dd int)
+			walk = func(y ssa.Value, dd int) {
+				if dd > 4 || y == nil {
+					return
+				}
+				switch z := y.(type) {
+				case *ssa.Call:
+					if (core.IsCallTo(z.Common(), "strings", "IndexByte") || core.IsCallTo(z.Common(), "strings", "Index")) && isSlash(z.Common().Args[1]) {
+						found = true
+					}
+				case *ssa.BinOp:
+					walk(z.X, dd+1)
+					walk(z.Y, dd+1)
+				case *ssa.Phi:
+					for _, e := range z.Edges {
+						walk(e, dd+1)
+					}
+				}
+			}
+			walk(b, 0)
+			if found {
+				return true
+			}
+		}
+	case *ssa.Phi:
+		n := 0
+		for _, e := range x.Edges {
+			if e == ssa.Value(x) {
+				continue
+			}
+			if !isSlashToken(e, sites, d+1) {
+				return false
+			}
+			n++
+		}
+		return n > 0
+	case *ssa.Parameter:
+		fn := x.Parent()
+		idx := paramIndex(fn, x)
+		if idx < 0 || len(sites[fn]) == 0 {
+			return false
+		}
+		for _, cs := range sites[fn] {
+			if idx >= len(cs.Common().Args) || !isSlashToken(cs.Common().Args[idx], sites, d+1) {
+				return false
+			}
+		}
+		return true
+	}
+	return false
+}
+
+func phiOnlyOf(ph *ssa.Phi, v ssa.Value) bool {
+	for _, e := range ph.Edges {
+		if e != v && e != ssa.Value(ph) {
+			return false
+		}
+	}
+	return true
 }
